@@ -991,6 +991,9 @@ def _c09_cases(tier, seed):
     for via in ("TorrentFile", "TorrentFileV2", "TorrentAssembler3"):
         add([_cr(via), {"op": "rebuild"}, {"op": "rebuild"}])
         add([_cr(via), {"op": "rebuild"}, _fs("delete-sub"), {"op": "rebuild"}])
+        # a candidate file rewritten in place (same size, same timestamps) between two rebuilds, with and without a new metafile
+        add([_cr(via), {"op": "rebuild"}, _fs("rewrite"), {"op": "rebuild"}])
+        add([_cr(via), {"op": "rebuild"}, _fs("rewrite"), _cr(via), {"op": "rebuild"}, {"op": "recheck"}])
         add([_cr(via), {"op": "edit", "args": {"comment": "c1", "announce": ["http://t/1"]}}, {"op": "magnet"},
              {"op": "edit", "args": {"source": "S", "url-list": ["http://w/1"]}}])
         add([_cr(via), {"op": "magnet"}, {"op": "edit", "args": {"comment": "c2"}, "via": "cli"}, {"op": "magnet", "via": "cli"}])
